@@ -74,6 +74,8 @@ def make_schema(fam, tg, rng):
     defaults_started = False
     for i in range(n):
         t = tg.type(rng.randint(0, 2))
+        if tg.allow_field_engine and tg.allow_named and rng.random() < 0.03:
+            t = tg.nt_engine_dataclass()          # NamedTuple engine lattice (Config option x field option x position)
         f = {"n": f"f{i}", "t": t}
         if (kw_only or defaults_started or i > 0) and rng.random() < (0.4 if kw_only else 0.3) or (defaults_started and not kw_only):
             f["dmode"] = rng.choice(["default", "factory"])
